@@ -23,18 +23,43 @@ from fractions import Fraction
 
 from sexp import Sym
 
+class _ByType(dict):
+    """tables keyed by a core type name in ANY letter case (the dialect accepts `unique_id`, `Unique_Id`, ...)"""
+
+    def __getitem__(self, k):
+        return dict.__getitem__(self, k.upper())
+
+    def get(self, k, default=None):
+        return dict.get(self, k.upper(), default)
+
+    def __contains__(self, k):
+        return dict.__contains__(self, k.upper())
+
+
 TYPES = ['INTEGER', 'STRING', 'BOOLEAN', 'UNIQUE_ID', 'REAL']
-TAG = {'INTEGER': 'i', 'STRING': 's', 'BOOLEAN': 'b', 'UNIQUE_ID': 'u', 'REAL': 'r'}
-TYSYM = {'INTEGER': 'integer', 'STRING': 'string', 'BOOLEAN': 'boolean', 'UNIQUE_ID': 'unique_id', 'REAL': 'real'}
+TAG = _ByType({'INTEGER': 'i', 'STRING': 's', 'BOOLEAN': 'b', 'UNIQUE_ID': 'u', 'REAL': 'r'})
+TYSYM = _ByType({'INTEGER': 'integer', 'STRING': 'string', 'BOOLEAN': 'boolean', 'UNIQUE_ID': 'unique_id', 'REAL': 'real'})
+
+
+def spell(rng, ty):
+    """a spelling of the type name: the code upper-cases type names wherever it looks at them"""
+    r = rng.random()
+    if r < 0.55:
+        return ty
+    if r < 0.75:
+        return ty.lower()
+    if r < 0.9:
+        return ty.title()               # Unique_Id
+    return ''.join(c.lower() if rng.random() < 0.5 else c for c in ty)
 KINDS = ['KA', 'KB', 'KC', 'KD', 'KE']
 # tiny pools: duplicates, dangling and null keys are the normal case
-POOL = {
+POOL = _ByType({
     'INTEGER': [0, 1, 2, -1],
     'STRING': ['', 'a', 'b', "o'k"],
     'BOOLEAN': [False, True],
     'UNIQUE_ID': [0, 1, 2, 3],
     'REAL': [0, 500000, 1500000, -250000],
-}
+})
 CARDS = ['1', '1C', 'M', 'MC']
 PHRASES = ['one', 'other', 'is part of']
 
@@ -118,7 +143,7 @@ def enc_val(tv):
 def enc_stmt(s):
     t = s['t']
     if t == 'cls':
-        return [Sym('cls'), s['kind'], [[n, Sym(TYSYM[ty])] for n, ty in s['attrs']]]
+        return [Sym('cls'), s['kind'], [[n, ty] for n, ty in s['attrs']]]
     if t == 'assoc':
         return [Sym('assoc'), s['rel'], s['sk'], 'M' in s['scard'], 'C' in s['scard'], list(s['skeys']), s['sph'],
                 s['tk'], 'M' in s['tcard'], 'C' in s['tcard'], list(s['tkeys']), s['tph']]
@@ -132,7 +157,7 @@ def enc_stmt(s):
 
 # ----------------------------------------------------------------------------- schema / population generator
 
-def gen_schema(rng, n_classes=None, max_assocs=3, phrase_mode='mixed', allow_empty_keys=True):
+def gen_schema(rng, n_classes=None, max_assocs=3, phrase_mode='mixed', allow_empty_keys=True, shared_index_p=0.35):
     """-> (class stmts, assoc stmts, uniq stmts).
     phrase_mode: 'plain' = no reflexive association, both ends of every association carry the same phrase
                  (mostly none); 'mixed' = anything in the domain (reflexive, different phrases, twin
@@ -195,6 +220,36 @@ def gen_schema(rng, n_classes=None, max_assocs=3, phrase_mode='mixed', allow_emp
             continue
         used.update(keys)
         assocs.append(a)
+        if klen >= 2 and rng.random() < shared_index_p:
+            # a second association to the same referred class over the same SET of identifying attributes, listed in
+            # another order: populate_connections shares one index between the two
+            tkeys2 = list(tkeys)
+            while tkeys2 == tkeys:
+                rng.shuffle(tkeys2)
+            sk2 = rng.choice([k for k in kinds if k != tk] or kinds)
+            if not (phrase_mode == 'plain' and sk2 == tk):
+                skeys2 = []
+                for tkey in tkeys2:
+                    ty = dict(map(tuple, attrs[tk]))[tkey]
+                    cands = [x[0] for x in attrs[sk2] if x[1] == ty and x[0] not in skeys2 and not (sk2 == tk and x[0] in tkeys2)]
+                    if cands and rng.random() < 0.5:
+                        skeys2.append(rng.choice(cands))
+                    else:
+                        name = 'a%d' % len(attrs[sk2])
+                        attrs[sk2].append([name, ty])
+                        skeys2.append(name)
+                nrel += 1
+                rel2 = 'R%d' % nrel
+                if sk2 == tk:
+                    sph2, tph2 = rng.sample(PHRASES, 2)
+                else:
+                    sph2 = tph2 = ''
+                b = {'t': 'assoc', 'rel': rel2, 'sk': sk2, 'scard': rng.choice(CARDS), 'skeys': skeys2, 'sph': sph2,
+                     'tk': tk, 'tcard': rng.choice(CARDS), 'tkeys': tkeys2, 'tph': tph2}
+                keys2 = [(tk, sk2, rel2, tph2), (sk2, tk, rel2, sph2)]
+                if not any(k in used for k in keys2) and keys2[0] != keys2[1]:
+                    used.update(keys2)
+                    assocs.append(b)
         if phrase_mode == 'mixed' and sk != tk and sph != tph and klen >= 1 and rng.random() < 0.3:
             # the ooaofooa R1402 shape: a second formalisation, same rel id and classes, phrases swapped
             skeys2 = []
@@ -208,7 +263,10 @@ def gen_schema(rng, n_classes=None, max_assocs=3, phrase_mode='mixed', allow_emp
             if not any(k in used for k in keys):
                 used.update(keys)
                 assocs.append(b)
-    classes = [{'t': 'cls', 'kind': k, 'attrs': attrs[k]} for k in kinds]
+    # type names in any letter case, attribute by attribute
+    classes = [{'t': 'cls', 'kind': k, 'attrs': [[n_, spell(rng, ty)] for n_, ty in attrs[k]]} for k in kinds]
+    for k in kinds:
+        attrs[k] = class_attrs = [c for c in classes if c['kind'] == k][0]['attrs']
     uniqs = []
     for k in kinds:
         for i in range(rng.choice([0, 0, 1, 1, 2])):
@@ -244,6 +302,38 @@ def gen_inferred_rows(rng, kind, n):
         out.append({'t': 'insert', 'kind': kind, 'names': None if names is None else list(names), 'vals': vals,
                     'lex': [lexeme(v, None) for v in vals]})
     return out
+
+
+def gen_shared_index_population(rng):
+    """two (or three) associations reach one referred class over the same two identifying attributes of one type,
+    listed in different orders; keys from {1, 2} so that (1, 2) and (2, 1) both occur"""
+    ty = rng.choice(['INTEGER', 'UNIQUE_ID', 'STRING'])
+    vals = {'INTEGER': [1, 2, 0], 'UNIQUE_ID': [1, 2, 0], 'STRING': ['a', 'b', '']}[ty]
+    t = {'t': 'cls', 'kind': 'KT', 'attrs': [['p', spell(rng, ty)], ['q', spell(rng, ty)], ['z', spell(rng, 'BOOLEAN')]]}
+    stmts = [t]
+    orders = [['p', 'q'], ['q', 'p']] + ([rng.choice([['p', 'q'], ['q', 'p']])] if rng.random() < 0.3 else [])
+    rng.shuffle(orders)
+    srcs = []
+    for n, tkeys in enumerate(orders):
+        kind = rng.choice(['KX1', 'KX2']) if n else 'KX1'
+        c = class_of(stmts, kind)
+        if c is None:
+            c = {'t': 'cls', 'kind': kind, 'attrs': [['id', spell(rng, 'INTEGER')]]}
+            stmts.append(c)
+            srcs.append(c)
+        skeys = []
+        for k in tkeys:
+            name = 'r%d' % len(c['attrs'])
+            c['attrs'].append([name, spell(rng, ty)])
+            skeys.append(name)
+        stmts.append({'t': 'assoc', 'rel': 'R%d' % (n + 1), 'sk': kind, 'scard': rng.choice(CARDS), 'skeys': skeys, 'sph': '',
+                      'tk': 'KT', 'tcard': rng.choice(CARDS), 'tkeys': tkeys, 'tph': ''})
+    pool = _ByType({ty: vals, 'BOOLEAN': [False, True], 'INTEGER': vals if ty == 'INTEGER' else [1, 2, 3]})
+    for c in [t] + srcs:
+        for _ in range(rng.randint(2, 4)):
+            stmts.append(gen_row(rng, c['kind'], c['attrs'], named_p=0.15, pool=pool))
+    rng.shuffle(stmts)
+    return stmts
 
 
 def gen_population(rng, max_rows=4, phrase_mode='mixed', inferred_p=0.15, max_stmts=None, n_classes=None,
@@ -303,3 +393,16 @@ def key_match(a, srow, trow):
         if is_null(sv) or sv != trow.get(tk):
             return False
     return True
+
+
+def referential_of(stmts, kind):
+    out = set()
+    for a in stmts:
+        if a['t'] == 'assoc' and a['sk'] == kind:
+            out.update(a['skeys'])
+    return out
+
+
+def has_chain(stmts):
+    """some identifying attribute used as a key is itself referential in its class (read through links)"""
+    return any(a['t'] == 'assoc' and set(a['tkeys']) & referential_of(stmts, a['tk']) for a in stmts)
